@@ -437,11 +437,12 @@ class Engine:
         """frame obligation: the object written is fresh in this call or in the declared frame"""
         if self.spec:
             raise Unsupported("heap write in specification")
-        allowed = [ref >= self.entry_alloc] + [ref == r for r in self.modifies_refs]
-        self.oblige(f"{self.qual}.frame.{what}@L{self.cur_line}", st, z3.Or(allowed), "frame")
+        from .values import in_frame
+        self.oblige(f"{self.qual}.frame.{what}@L{self.cur_line}", st,
+                    z3.Or(ref >= self.entry_alloc, in_frame(ref, self.modifies_refs)), "frame")
         for (a0, refs, label) in self.frame_stack:
             self.oblige(f"{self.qual}.{label}.frame.{what}@L{self.cur_line}", st,
-                        z3.Or([ref >= a0] + [ref == r for r in refs]), "frame")
+                        z3.Or(ref >= a0, in_frame(ref, refs)), "frame")
         ts = self.reg.tree_struct
         if ts is not None and what in ts.protected_kinds and ts.active(st):
             ts.base_axioms(self, st)
